@@ -56,7 +56,7 @@ func (P *Program) NewGen(fn *ssa.Function, spec *FuncSpec) *Gen {
 		declared: map[string]bool{}, vals: map[ssa.Value]*Val{}, params: map[string]*Val{},
 		escaping: map[*ssa.Alloc]bool{}, heapSort: map[string]string{}, baseSyms: map[string]string{},
 		oblNames: map[string]int{}, loopOrd: map[*ssa.BasicBlock]int{}, loops: map[*ssa.BasicBlock]*loopInfo{},
-		strConsts: map[string]string{}, localsByName: map[string][]*ssa.Alloc{}, knownNonNil: map[string]bool{},
+		strConsts: map[string]string{}, localsByName: map[string][]*ssa.Alloc{}, knownNonNil: map[string]bool{}, checkedNonNil: map[string][]*ssa.BasicBlock{},
 		out: map[*ssa.BasicBlock]*State{}, usedSpecs: map[string]bool{}, cands: map[*ssa.BasicBlock][]*candInv{},
 		joinParts: map[string][]string{}, callCount: map[string]int{}, autoInvs: map[int][]Clause{}, variantAtHead: map[*ssa.BasicBlock]string{}, heapKind: map[string]Kind{},
 	}
@@ -137,6 +137,10 @@ func (g *Gen) run() {
 			g.assume("true", not(eq(v.S, "0")))
 			g.knownNonNil[v.S] = true
 			g.notes = append(g.notes, "receiver assumed non-nil")
+		} else if g.hooks != nil && g.hooks.paramsNonNil && (v.K == KPtr || v.K == KIface) && fn.Parent() == nil &&
+			!(g.spec != nil && g.spec.Nilable[p.Name()]) {
+			g.assume("true", not(eq(v.S, "0")))
+			g.knownNonNil[v.S] = true
 		}
 	}
 	// the entry byte memory is declared up front so that replay queries can read parameter contents
